@@ -42,6 +42,15 @@ func refLE(v uint64, n int) []byte {
 	return b
 }
 
+// scribble overwrites an encoding the caller owns and appends to it (callers build keys with
+// append(x.Bytes(), ...)); a later encoding of any value must not be affected by that.
+func scribble(b []byte) {
+	for i := range b {
+		b[i] ^= 0xa5
+	}
+	_ = append(b, 0xde, 0xad, 0xbe, 0xef, 0xde, 0xad, 0xbe, 0xef)
+}
+
 // TestC32Enum16 enumerates every 16-bit value: round trip, reference bytes, and strict
 // byte-order increase between neighbours (which gives order preservation for all pairs).
 func TestC32Enum16(t *testing.T) {
@@ -63,7 +72,9 @@ func TestC32Enum16(t *testing.T) {
 		if prev != nil && bytes.Compare(prev, be) >= 0 {
 			t.Fatalf("big-endian order not increasing at %d: %x !< %x", v, prev, be)
 		}
-		prev = be
+		prev = append([]byte{}, be...)
+		scribble(be)
+		scribble(le)
 		// non-trivial: neighbour pair that differs in the high byte (carry)
 		st.Case(uint64(x), x&0xff == 0 && x != 0, "u16")
 	}
@@ -101,7 +112,14 @@ func TestC32Enum32(t *testing.T) {
 			if prev != nil && bytes.Compare(prev, be) >= 0 {
 				t.Fatalf("big-endian order not increasing at %d: %x !< %x", v, prev, be)
 			}
-			prev = be
+			prev = append(prev[:0], be...)
+			if x < 1<<16 || x&0xfff == 0 {
+				// the caller owns the returned slices: overwriting / appending must not affect later encodings
+				scribble(be)
+				scribble(le)
+				scribble(idx.Frame(v).Bytes())
+				scribble(idx.ValidatorID(v).Bytes())
+			}
 			if x&0xff == 0 {
 				nt++
 				if x&0xffff == 0 {
@@ -312,6 +330,22 @@ func buildID(c idCase, viaSetID bool) hash.Event {
 	return me.Build(c.Tail).ID()
 }
 
+// rebuildID gives the event a provisional ID first (as IndexedLachesis.Build does), then changes epoch and
+// Lamport time to their final values and builds the final event.
+func rebuildID(prov, c idCase, finalViaSetID bool) hash.Event {
+	var me dag.MutableBaseEvent
+	me.SetEpoch(idx.Epoch(prov.Epoch))
+	me.SetLamport(idx.Lamport(prov.Lamport))
+	me.SetID(prov.Tail)
+	me.SetEpoch(idx.Epoch(c.Epoch))
+	me.SetLamport(idx.Lamport(c.Lamport))
+	if finalViaSetID {
+		me.SetID(c.Tail)
+		return me.ID()
+	}
+	return me.Build(c.Tail).ID()
+}
+
 func cmpID(a, b idCase) int {
 	if c := cmpU64(uint64(a.Epoch), uint64(b.Epoch)); c != 0 {
 		return c
@@ -337,6 +371,10 @@ func TestC32EventIDs(t *testing.T) {
 		}
 		via := rapid.Bool().Draw(t, "viaSetID")
 		ia, ib := buildID(a, via), buildID(b, !via)
+		if rapid.Bool().Draw(t, "provisionalIDFirst") {
+			// a got a provisional ID under b's epoch/Lamport before its final values were set
+			ia = rebuildID(b, a, via)
+		}
 		for _, p := range []struct {
 			id hash.Event
 			c  idCase
